@@ -613,6 +613,10 @@ def r23_7(ctx):
 
 RULES = [r23_1, r23_2, r23_3, r23_4, r23_5, r23_6, r23_7]
 
+from .upstream import upstream_facts  # noqa: E402
+
+RULES_THOROUGH = RULES + [upstream_facts]
+
 LEVEL_TEXT = (
     "Static decision of the conditions that make a random array one realization under every rewrite history: effect analysis "
     "(flow-sensitive alias tags over the statement CFG, followed into package helpers) showing that no method of a random "
